@@ -143,8 +143,8 @@ func c12(c *Ctx) {
 
 func c13(c *Ctx) {
 	c.Rep.TieObs = []string{"O-render over sequences: each render's bytes vs the model's isolated render"}
-	c.Rep.Rule = "a pool of generated templates (with and without children, markers, failing sites) rendered repeatedly in random orders inside ONE process (failed renders in between), and from 32 goroutines sharing a parent context in a -race build; oracle: every render equals its isolated result (generator intent), and the race detector stays silent; distinct = distinct (template, environment, position class); non-trivial = the render is not the first of its process"
-	o := gen.Opts{ObjRefs: true, ClassExprs: true, NonASCII: false, MaxDepth: 3, FailSites: true, RenderHeavy: true, MarkerHeavy: true}
+	c.Rep.Rule = "a pool of generated templates (with and without children, markers, failing sites) rendered repeatedly in random orders inside ONE process (failed renders in between), and from 32 goroutines sharing a parent context in a -race build; oracle: every render equals the same render run alone in a fresh process (real code both times) and the generator intent, and the race detector stays silent; distinct = distinct (template, environment, position class); non-trivial = the render is not the first of its process"
+	o := gen.Opts{ObjRefs: true, ClassExprs: true, AttributesCmd: true, NonASCII: false, MaxDepth: 3, FailSites: true, RenderHeavy: true, MarkerHeavy: true}
 	type seq struct {
 		rc   *RenderCase
 		conc bool
@@ -155,8 +155,16 @@ func c13(c *Ctx) {
 		// renders share their arguments: a slice argument used as the first class value, followed by another
 		f.Templates = append(f.Templates, &gen.Template{Name: "Shared", Sig: gen.Sig, Body: []*gen.Node{
 			{Kind: gen.KElem, Tag: "a", ClassExprs: []string{"xs", "s1"}, Inline: &gen.Node{Kind: gen.KText, Parts: []gen.Part{{Static: "go"}}}},
+			// every helper with a list argument is used by a render that succeeds (other renders fail half way through theirs)
+			{Kind: gen.KElem, Tag: "u", AttrsCmd: "m0, mb", Inline: &gen.Node{Kind: gen.KText, Parts: []gen.Part{{Static: "attrs"}}}},
 			{Kind: gen.KFor, Chain: []gen.Branch{{Header: "for _, x := range xs", Kids: []*gen.Node{{Kind: gen.KElem, Tag: "i", ClassExprs: []string{"xs", `"k"`}, Inline: &gen.Node{Kind: gen.KScript, Expr: "x"}}}}}},
 		}})
+		// … and by renders that fail half way through their list (a valid value, then one of an unsupported type)
+		f.Templates = append(f.Templates,
+			&gen.Template{Name: "SharedFailAttrs", Sig: gen.Sig, Body: []*gen.Node{
+				{Kind: gen.KElem, Tag: "i", AttrsCmd: "m0, mb, n0", Inline: &gen.Node{Kind: gen.KText, Parts: []gen.Part{{Static: "bad attrs arg"}}}}}},
+			&gen.Template{Name: "SharedFailClass", Sig: gen.Sig, Body: []*gen.Node{
+				{Kind: gen.KElem, Tag: "b", ClassExprs: []string{"xs", "s1", "n0"}, Inline: &gen.Node{Kind: gen.KText, Parts: []gen.Part{{Static: "bad class arg"}}}}}})
 		prepFile(f)
 		p, src := f.Print()
 		mk := func(conc bool) *RenderCase {
@@ -194,6 +202,8 @@ func c13(c *Ctx) {
 	var wg sync.WaitGroup
 	sem := make(chan struct{}, 4)
 	races := make([]string, len(seqs))
+	isos := make([]map[string]rt.Result, len(seqs))
+	var isoMu sync.Mutex
 	for si, s := range seqs {
 		si, s := si, s
 		wg.Add(1)
@@ -213,6 +223,41 @@ func c13(c *Ctx) {
 			if s.conc {
 				g = 32
 			}
+			// the isolated result of every (template, environment) of the sequence: the render alone in a fresh process
+			iso := map[string]rt.Result{}
+			var todo []rt.Job
+			for _, j := range s.rc.Jobs {
+				k := fmt.Sprintf("%s/%d", j.Name, j.Env)
+				if _, ok := iso[k]; !ok {
+					iso[k] = rt.Result{}
+					todo = append(todo, j)
+				}
+			}
+			var iwg sync.WaitGroup
+			var imu sync.Mutex
+			isem := make(chan struct{}, 6)
+			for _, j := range todo {
+				j := j
+				iwg.Add(1)
+				go func() {
+					defer iwg.Done()
+					isem <- struct{}{}
+					defer func() { <-isem }()
+					// the process gets this one environment only
+					r1, err1 := b.Run([]rt.Env{s.rc.Envs[j.Env]}, []rt.Job{{Name: j.Name, Env: 0}}, 60*time.Second)
+					imu.Lock()
+					defer imu.Unlock()
+					if err1 == nil && len(r1) == 1 {
+						iso[fmt.Sprintf("%s/%d", j.Name, j.Env)] = r1[0]
+					} else {
+						iso[fmt.Sprintf("%s/%d", j.Name, j.Env)] = rt.Result{Panic: fmt.Sprintf("isolated run failed: %v", err1)}
+					}
+				}()
+			}
+			iwg.Wait()
+			isoMu.Lock()
+			isos[si] = iso
+			isoMu.Unlock()
 			res, stderr, err := b.RunConc(s.rc.Envs, s.rc.Jobs, 180*time.Second, g)
 			s.rc.Real = res
 			if strings.Contains(stderr, "DATA RACE") {
@@ -255,6 +300,13 @@ func c13(c *Ctx) {
 				c.distinct(fmt.Sprintf("%d/%s/%d/%s", si, j.Name, j.Env, mode))
 			}
 			got := realBytes(r)
+			// the property itself: this render against the same render alone in a fresh process (real code both times)
+			if ir, ok := isos[si][fmt.Sprintf("%s/%d", j.Name, j.Env)]; ok {
+				if ir.Err != r.Err || ir.Panic != r.Panic || realBytes(ir) != got {
+					c.fail("C13/"+mode+"/differs-from-own-isolated-run", fmt.Sprintf("render #%d of the %s run (template %s): err=%q bytes %q; alone in a fresh process: err=%q bytes %q", ji, mode, j.Name, r.Err, clip(got, 100), ir.Err, clip(realBytes(ir), 100)),
+						map[string]any{"template": templateSrc(rc.Src, j.Name), "file_hex": hx([]byte(rc.Src)), "position": ji, "env": rc.Envs[j.Env], "mode": mode})
+				}
+			}
 			bad := ""
 			switch {
 			case r.Panic != "":
